@@ -96,7 +96,8 @@ def real_solver_search(rep, rng, n):
     tried = 0
     methods = ["auto", "SLSQP", "trust-constr", "L-BFGS-B", "BFGS", "Nelder-Mead", "COBYLA", "TNC", "Powell", "CG", "linprog", "highs", "highs-ds"]
     for i in range(n):
-        kinds = ["feasible", "infeasible", "bounds", "lp_infeasible", "bound_only", "lp_zero_row", "nlp_zero_row", "lp_eq_infeasible"]
+        kinds = ["feasible", "infeasible", "bounds", "lp_infeasible", "bound_only", "lp_zero_row", "nlp_zero_row", "lp_eq_infeasible",
+                 "bound_and_looser_row", "objective_swap"]
         kind = kinds[i % len(kinds)]
         x = VectorVariable(f"s{i}", rng.randint(1, 3), lb=rng.choice([None, 0, -1]), ub=rng.choice([None, 2, 5]))
         P = Problem()
@@ -126,6 +127,21 @@ def real_solver_search(rep, rng, n):
             for v in x:
                 v.lb, v.ub = 0.0, 1.0
             P.maximize(lin).subject_to(x.sum().eq(5))
+        elif kind == "bound_and_looser_row":
+            # a declared bound AND a single-variable constraint that is looser on the same side: the declared bound still binds
+            x[0].lb, x[0].ub = 2.0, None
+            P.minimize((x[0] + 5) ** 2 + quad).subject_to(x[0] >= 0)
+            if x.size > 1:
+                x[1].lb, x[1].ub = None, -1.0
+                P.subject_to(x[1] <= 3)
+        elif kind == "objective_swap":
+            # solved once, then the objective is replaced by one over ANOTHER variable set of the same size
+            # ([s, t, u] -> [r, s, t]: every position shifts), constraints unchanged
+            from optyx import Variable as _V
+            rr, ss, tt, uu = _V(f"r{i}"), _V(f"s{i}_"), _V(f"t{i}"), _V(f"u{i}")
+            P.minimize((ss - 2) ** 2 + (tt - 2) ** 2 + (uu - 1) ** 2).subject_to(ss <= 1).subject_to(ss + tt <= 3)
+            swap_to = (rr + 1) ** 2 + (ss - 2) ** 2 + (tt - 4) ** 2
+            orig_obj = P.objective
         else:
             x[0].lb = 0.0
             P.minimize((x[0] + 5) ** 2)
@@ -134,7 +150,12 @@ def real_solver_search(rep, rng, n):
             try:
                 with warnings.catch_warnings():
                     warnings.simplefilter("ignore")
+                    if kind == "objective_swap":
+                        P.minimize(orig_obj)
                     s = P.solve(method=m)
+                    if kind == "objective_swap":
+                        P.minimize(swap_to)
+                        s = P.solve(method=m)          # the solve that matters: after the replacement
             except Exception:
                 continue
             if s.status != SolverStatus.OPTIMAL or not s.values:
@@ -213,7 +234,7 @@ def run(rep: vk.Report):
         rep.violation({"kind": "correspondence", "obligation": "wrapper outcome = model post_minimize (SolveWrap.v)",
                        "case": cases.terms[i][:4000], "meta": meta, "model": model,
                        "witness": meta if concrete else None}, concrete=concrete)
-    tried, found = real_solver_search(rep, rng, 24 if rep.tier == "quick" else 400)
+    tried, found = real_solver_search(rep, rng, 30 if rep.tier == "quick" else 400)
     cov = rep.coverage
     cov["evaluations"] = len(cases.terms) + tried
     cov["distinct_nontrivial"] = cases.nontrivial
